@@ -46,7 +46,7 @@ def random_song(rng, ntracks=None, maxev=10, loops="none", tempo_changes=True, f
             elif r < 0.88: ev.append([dt, {"k": "nat", "ch": k, "n": 60, "v": rng.randrange(128)}])
             elif r < 0.92: ev.append([dt, {"k": "marker", "b": tagbytes(k, i)}])
             elif r < 0.95: ev.append([dt, {"k": "text", "ty": rng.choice([1, 5, 7]), "b": tagbytes(k, i, b"X")}])
-            elif r < 0.97: ev.append([dt, {"k": "sysex", "b": [0x7D, k, i % 128, 0xF7]}])
+            elif r < 0.97: ev.append([dt, {"k": rng.choice(["sysex", "sysex", "sysex7"]), "b": [0x7D, k, i % 128, 0xF7]}])
             elif k == 0 and tempo_changes: ev.append([dt, {"k": "tempo", "us": div * rng.choice(qs)}])
             else: ev.append([dt, {"k": "cc", "ch": k, "n": 11, "v": rng.randrange(128)}])
         for (chn, note) in sounding:
